@@ -3,6 +3,9 @@
 // iteration is logged), and compares outcome and log.
 // stdin: JSON lines {id, input, output, kind:'script', exempt_coercion_order:bool}; stdout {id, equal, why, logs?}
 const vm = require('vm')
+// a program under test may leave a rejected promise behind (dynamic import without a loader, async code): never fatal for the driver
+process.on('unhandledRejection', () => {})
+process.on('uncaughtException', () => {})
 
 function makeWorld (opts) {
   const log = []
